@@ -1,5 +1,6 @@
 import StunVerif.Props.C07
 import StunVerif.Props.C07Codec
+import StunVerif.Props.SrcFnAgent
 #print axioms StunVerif.C07.delivered_auth
 #print axioms StunVerif.C07.forged_dropped
 #print axioms StunVerif.C07.forged_equiv
@@ -12,3 +13,14 @@ import StunVerif.Props.C07Codec
 #print axioms StunVerif.C07.sealed_response_delivered
 #print axioms StunVerif.C07.unsigned_response_dropped
 #print axioms StunVerif.C07.non_response_incoming
+#print axioms StunVerif.SrcFnAgent.src_reqPoll
+#print axioms StunVerif.SrcFnAgent.src_validatedPeer
+#print axioms StunVerif.SrcFnAgent.src_takeOutstanding
+#print axioms StunVerif.SrcFnAgent.remove_of_lookup_none
+#print axioms StunVerif.SrcFnAgent.src_handleStun
+#print axioms StunVerif.SrcFnAgent.src_send_request
+#print axioms StunVerif.SrcFnAgent.src_send_other
+#print axioms StunVerif.SrcFnAgent.src_cancel
+#print axioms StunVerif.SrcFnAgent.src_cancelRetransmissions
+#print axioms StunVerif.SrcFnAgent.foldl_add_eq_sum
+#print axioms StunVerif.SrcFnAgent.src_configureTimeout
